@@ -132,6 +132,12 @@ def wl_generate(ctx, config):
             s3 = ctx.call("surj_serialize", pr.b(1), len(sb), config=config)
             if s3 is not None: ctx.check(s3.ret == 1 and s3.b(2) == sb, "surj_serialize:roundtrip", "", config)
         mutate(ctx, config, rng, sb, S, "libproof")
+        # generation with a list of ephemeral tags whose count differs from the initialised proof's input count must refuse
+        if nin >= 2 and it % 4 == 0:
+            g3 = ctx.call("surj_generate", r.b(2), b''.join(S.in_obj[:-1]), nin - 1, S.out_obj, min(idx, nin - 2), b32(ik), b32(ok_), config=config)
+            if g3 is not None:
+                ctx.ev("surj_generate", "tag_count_mismatch", True, nin, use, idx)
+                ctx.check(g3.ret == 0, "surj_generate:tag_count_mismatch:accepted", "n_inputs=%d given=%d" % (nin, nin - 1), config)
         # wrong key: generate may succeed, the proof must not verify
         if kind == 7:
             g2 = ctx.call("surj_generate", r.b(2), b''.join(S.in_obj), nin, S.out_obj, idx, b32(rng.randrange(1, n)), b32(S.out_key), config=config)
